@@ -4,6 +4,7 @@
 -/
 import Rl2tp.Proofs.HideReveal
 import Rl2tp.Proofs.Greedy
+import Rl2tp.Props.C03
 namespace Rl2tp.C11
 
 variable (md5 : Bytes → Bytes) (hmd5 : ∀ x, (md5 x).length = 16)
@@ -44,6 +45,66 @@ theorem reveal_hide_wire (a : AVP) (secret : Bytes) (rv : UInt32) (lp ap : Bytes
   have := writeAvp_eq [] _ henc'.2
   simpa [encodeAvp] using this
 
+/-- what `hide` makes of a plain AVP (`Proofs/HideReveal.hide_eq`) -/
+def hiddenOf (a : AVP) (secret : Bytes) (rv : UInt32) (lp ap : Bytes) : AVP :=
+  .hidden a.attr (encChain md5 secret (key1 md5 a.attr secret rv)
+    (chunks ((hidePlain a lp ap).length / 16) (hidePlain a lp ap))).flatten
+
+include hmd5 in
+/-- the hidden AVP is itself encodable when 2+|value|+|lp| ≤ 1008 -/
+theorem hiddenOf_encodable (a : AVP) (secret : Bytes) (rv : UInt32) (lp ap : Bytes)
+    (hap : ap.length = 16) (hfit : 2 + a.value.length + lp.length ≤ 1008) :
+    (hiddenOf md5 a secret rv lp ap).Encodable := by
+  have hmod := hidePlain_length_mod a lp ap hap
+  have hpl := hidePlain_length a lp ap hap
+  have hchunks := chunks_each ((hidePlain a lp ap).length / 16) (hidePlain a lp ap) (by omega)
+  have henc := encChain_each md5 hmd5 secret _ (hmd5 (be16 a.attr ++ secret ++ be32 rv)) _ hchunks
+  have hflen := flatten_length_16 _ henc
+  rw [encChain_length, chunks_length] at hflen
+  refine ⟨rfl, ?_⟩
+  simp only [hiddenOf, AVP.value]
+  unfold key1
+  rw [hflen]
+  omega
+
+include hmd5 in
+/-- End to end, the way the AVPs travel: a control message whose first AVP is a (plain) Message Type and whose
+    other AVPs were each hidden under the tunnel's secret and the message's random vector — any number of
+    them, any kinds, any paddings — is encoded, decoded under any validation options, and every hidden AVP of
+    the decoded message reveals to the AVP that was hidden. -/
+theorem hidden_in_message_roundtrip (tid sid ns nr : UInt16) (mt : MessageType) (o : Opts)
+    (secret : Bytes) (rv : UInt32) (items : List (AVP × Bytes × Bytes))
+    (hi : ∀ x ∈ items, x.1.Encodable ∧ x.1.isHidden = false ∧ x.2.2.length = 16 ∧ 2 + x.1.value.length + x.2.1.length ≤ 1008)
+    (hl : 12 + (avpsImage (.messageType mt :: items.map fun x => hiddenOf md5 x.1 secret rv x.2.1 x.2.2)).length ≤ 65535) :
+    let hs := items.map fun x => hiddenOf md5 x.1 secret rv x.2.1 x.2.2
+    let c : Control := { length := 0, tunnelId := tid, sessionId := sid, ns := ns, nr := nr, avps := .messageType mt :: hs }
+    (∀ x ∈ items, hide md5 x.1 secret rv x.2.1 x.2.2 = .ok (hiddenOf md5 x.1 secret rv x.2.1 x.2.2)) ∧
+    (∃ img, encode (.control c) = .ok img ∧
+      (decode o : M Bytes (List DErr) Msg) img = .ok (.control { c with length := UInt16.ofNat img.length }) []) ∧
+    (∀ x ∈ items, reveal md5 (hiddenOf md5 x.1 secret rv x.2.1 x.2.2) secret rv = .ok (.ok x.1)) := by
+  intro hs c
+  refine ⟨?_, ?_, ?_⟩
+  · intro x hx
+    obtain ⟨he, hh, _, _⟩ := hi x hx
+    exact hide_eq md5 x.1 secret rv x.2.1 x.2.2 hh he.2
+  · apply C03.control_roundtrip c o
+    · intro a ha
+      simp only [c, List.mem_cons] at ha
+      rcases ha with rfl | ha
+      · exact ⟨rfl, by cases mt <;> decide⟩
+      · simp only [hs, List.mem_map] at ha
+        obtain ⟨x, hx, rfl⟩ := ha
+        obtain ⟨_, _, hap, hfit⟩ := hi x hx
+        exact hiddenOf_encodable md5 hmd5 x.1 secret rv x.2.1 x.2.2 hap hfit
+    · rfl
+    · exact hl
+  · intro x hx
+    obtain ⟨he, hh, hap, _⟩ := hi x hx
+    obtain ⟨h, h1, h2⟩ := Rl2tp.reveal_hide md5 hmd5 x.1 secret rv x.2.1 x.2.2 he.1 hh he.2 hap
+    rw [hide_eq md5 x.1 secret rv x.2.1 x.2.2 hh he.2] at h1
+    cases h1
+    exact h2
+
 /-- hiding an already hidden AVP returns it unchanged -/
 theorem hide_hidden (t : UInt16) (v secret : Bytes) (rv : UInt32) (lp ap : Bytes) :
     hide md5 (.hidden t v) secret rv lp ap = .ok (.hidden t v) := by
@@ -59,5 +120,10 @@ theorem reveal_plain (a : AVP) (secret : Bytes) (rv : UInt32) (hh : a.isHidden =
 def constHash : Bytes → Bytes := fun _ => List.replicate 16 0x5A
 example : ∀ x, (constHash x).length = 16 := fun _ => rfl
 example : (AVP.sequencingRequired).Encodable ∧ (AVP.hostName (List.replicate 40 1)).Encodable := by decide
+
+/-- the hypotheses of `hidden_in_message_roundtrip` are met by a Host Name and a 30-octet challenge with three octets of length padding -/
+example : ∀ x ∈ [(AVP.hostName [1, 2, 3], ([] : Bytes), List.replicate 16 (0 : UInt8)),
+                 (AVP.challenge (List.replicate 30 7), [9, 9, 9], List.replicate 16 (1 : UInt8))],
+    x.1.Encodable ∧ x.1.isHidden = false ∧ x.2.2.length = 16 ∧ 2 + x.1.value.length + x.2.1.length ≤ 1008 := by decide
 
 end Rl2tp.C11
